@@ -34,7 +34,7 @@ theorem fuChk_all (h : UInt8) (st en : Bool) : fuChk h.toNat st en = true := by
 
 /-- the FU-A header as the decoder sees it -/
 theorem fuHdr_read (h : UInt8) (st en : Bool) :
-    ∃ b0 b1, fuHdr h st en = [b0, b1] ∧ (b0 &&& 0x1F).toNat = 28 ∧
+    ∃ b0 b1, fuHdr h st en = [b0, b1] ∧ (b0 &&& 0x1F).toNat = CodecH26x.h264TypeFUA ∧
       b1 >>> 7 = (if st then 1 else 0) ∧ (b1 >>> 6) &&& 0x01 = (if en then 1 else 0) ∧
       (h &&& 0x80 = 0 → (((b0 >>> 5) &&& 0x03) <<< 5) ||| (b1 &&& 0x1F) = h) := by
   have hc := fuChk_all h st en
